@@ -316,7 +316,8 @@ func runCorpusTL1(c *core.Ctx, prop string, cp Corpus, k, kmut, kjson, kre, kmut
 			// C11: the TL2 readers accept exactly the byte strings the reference reader (Dec2) accepts,
 			// consume as much, and hold the value the reference decodes (compared through its encoding)
 			nBytes++
-			r, err := b.script(p.Tn, nBytes%2 == 0 && cp.BytesVers != "", map[string]any{"op": "read2", "in": p.B})
+			bytesVar := nBytes%2 == 0 && cp.BytesVers != ""
+			r, err := b.script(p.Tn, bytesVar, map[string]any{"op": "read2", "in": p.B})
 			if err != nil {
 				firstErr = err
 				return
@@ -334,6 +335,9 @@ func runCorpusTL1(c *core.Ctx, prop string, cp Corpus, k, kmut, kjson, kre, kmut
 				bad = fmt.Sprintf("reference rejects, implementation accepts (consumed %d, rewrites %s)", s.Consumed, hexs(s.Dump.TL2))
 			case p.Dec2OK && s.Consumed != p.Dec2Pos:
 				bad = fmt.Sprintf("consumed %d, reference %d", s.Consumed, p.Dec2Pos)
+			case bytesVar:
+				// slice-backed dictionaries keep order and duplicates of the input: only verdict and
+				// consumption are compared for the []byte variant (C10 compares the variants' contents)
 			case p.Dec2OK && p.Dec2Val && s.Dump != nil && p.Orig2 && !eqInts(s.Dump.TL2, p.Dec2Re):
 				bad = fmt.Sprintf("decoded value re-encodes to %s, reference %s", hexs(s.Dump.TL2), hexs(p.Dec2Re))
 			case p.Dec2OK && p.Dec2Val && s.Dump != nil && !p.Orig2 && (s.Dump.TL1Err != "" || !eqInts(s.Dump.TL1, p.Dec2TL1)):
@@ -753,6 +757,10 @@ func bytesVariantChecks(c *core.Ctx, b *Built, p *valPayload, stringVariantJSON 
 		switch {
 		case s.Panic != "":
 			add("bytesvar", key, "[]byte variant panics: "+s.Panic)
+		case s.Err != "" && in.op == "read1" && p.Small && b.Corpus.Sanity && strings.Contains(s.Err, "min object size"):
+			// the constant-4 length sanity rule (C01's known finding) refuses this input in both variants
+			// alike; C10 asks for equal behaviour of the variants, which holds
+			c.Add("inputs_refused_alike_by_both_variants", 1)
 		case s.Err != "":
 			add("bytesvar", key, fmt.Sprintf("[]byte variant rejects %s of a valid input: %s", in.op, s.Err))
 		default:
